@@ -93,7 +93,7 @@ theorem inv_step (c : Nat) (hist : List In) (st : St) (i : In) (h : Inv c hist s
         · rename_i name key sig _
           cases key with
           | badLen n => simp [reset]
-          | pk kn => simp only; split <;> simp [reset]
+          | pk kn => simp only; split <;> (try split) <;> simp [reset]
 
 theorem inv_after (c : Nat) (pre hist : List In) (st : St) (h : Inv c pre st) :
     Inv c (pre ++ hist) (stAfter true c st hist) := by
@@ -139,12 +139,12 @@ theorem epoch_step (c : Nat) (st : St) (i : In) :
         · rename_i name key sig _
           cases key with
           | badLen n => simp [reset]
-          | pk kn => simp only; split <;> simp [reset]
+          | pk kn => simp only; split <;> (try split) <;> simp [reset]
 
 /-- one-step characterisation of the save effect (both directions) -/
 theorem step_save_iff (c : Nat) (st : St) (i : In) (n k : Nat) :
     (step true c st i).2.2 = some (n, k) ↔
-      st.step = .verifyResp ∧ i = .m5 (.sealed st.K true true (.tlv n (.pk k) (.valid k st.S n k))) := by
+      st.step = .verifyResp ∧ n ≠ ownName ∧ i = .m5 (.sealed st.K true true (.tlv n (.pk k) (.valid k st.S n k))) := by
   constructor
   · intro hs
     cases i with
@@ -179,6 +179,9 @@ theorem step_save_iff (c : Nat) (st : St) (i : In) (n k : Nat) :
               simp only at hs
               split at hs
               · rename_i hsig
+                split at hs
+                · simp at hs
+                rename_i hown
                 simp at hs
                 obtain ⟨rfl, rfl⟩ := hs
                 simp only [openSealed] at hopen
@@ -190,13 +193,13 @@ theorem step_save_iff (c : Nat) (st : St) (i : In) (n k : Nat) :
                   | valid signer s n' k' =>
                     simp [sigOk] at hsig
                     obtain ⟨⟨⟨rfl, rfl⟩, rfl⟩, rfl⟩ := hsig
-                    exact ⟨hstep', rfl⟩
+                    exact ⟨hstep', hown, rfl⟩
                   | garbage m => simp [sigOk] at hsig
                   | empty => simp [sigOk] at hsig
                 · simp at hopen
               · simp at hs
-  · rintro ⟨hstep, rfl⟩
-    simp [step, stepR, hstep, openSealed, sigOk]
+  · rintro ⟨hstep, hown, rfl⟩
+    simp [step, stepR, hstep, openSealed, sigOk, hown]
 
 -- several connections: a connection's controller state depends only on its own messages -------------------------------
 
